@@ -38,6 +38,22 @@ theorem rs_createElement_data (d : Dom) (name : QualName) (attrs : List Attr) (f
     simp only [Bool.false_eq_true, if_false]
     rw [dataOf_alloc, if_neg (Nat.ne_of_lt hx)]
 
+/-- nothing open precedes the end of the current node's child list -/
+theorem Core.no_open_before_plain {s : State} {r t : Id} {up : List Id} {ph : Phase} (hc : Core s r up ph)
+    (ht : s.openElems.getLast? = some t) :
+    ∀ P a b x, s.dom.childrenOf P = a ++ b → NodePos s.dom (.lastChild t) P b → x ∈ a → x ∈ s.openElems →
+      exm (nm s.dom x) = false → False := by
+  intro P a b x hP hpos hxa hxO _
+  have hxP : x ∈ s.dom.childrenOf P := by rw [hP]; exact List.mem_append_left _ hxa
+  cases hpos with
+  | last hb hip =>
+    rcases hip with hip | ⟨e, hip, _⟩
+    · have hPt : t = P := by injection hip
+      rw [← hPt] at hxP
+      exact not_before_last hc.nodup ht (hc.adj.pb t x hxP hxO (mem_of_getLast?' ht))
+    · cases hip
+  | before e p b' hip _ _ _ => cases hip
+
 /-- what `insert_element` does when the place is the current node `t` -/
 structure InsRes (s s5 : State) (r t el : Id) (ns name : Str) : Prop where
   late : Late s5
@@ -51,6 +67,8 @@ structure InsRes (s s5 : State) (r t el : Id) (ns name : Str) : Prop where
   inner : t ≠ r → RS r s.dom s5.dom
   root : t = r → s5.dom.childrenOf r = s.dom.childrenOf r ++ [el] ∧
     (∀ x, x < s.dom.size → s5.dom.dataOf x = s.dom.dataOf x) ∧ (RTU r s.dom → RTU r s5.dom)
+  adj : AdjD s5.dom s5.openElems
+  adjp : AdjD s5.dom (s5.openElems ++ [el])
 
 theorem insertElement_res {s s' : State} {r : Id} {up : List Id} {ph : Phase} {pushIt : Bool} {ns name : Str}
     {attrs : List Attr} {dup : Bool} {el t : Id} (hc : Core s r up ph) (ht : s.openElems.getLast? = some t)
@@ -90,7 +108,51 @@ theorem insertElement_res {s s' : State} {r : Id} {up : List Id} {ph : Phase} {p
     have := hc2.late.st.oe t (by rw [q02.openElems]; exact mem_of_getLast?' ht)
     exact lt_of_isElement this
   have hte : t ≠ el := fun h0 => by rw [h0] at htlt; exact Nat.lt_irrefl _ (Nat.lt_of_lt_of_le htlt hfresh3)
-  refine ⟨s5, hs', hl5, hdo, hchg05, hk0, hsz, ?_, hext5.chg.isElement hel4, by rw [hk05]; exact hnol4 0, ?_, ?_⟩
+  -- adjacency
+  obtain ⟨_, hpar3, hkids3, htxt3, htc3, _, hch3, hpo3, hda3⟩ := createElement_adj hc2.late hc2.adj e3
+  have hst4 : s4.openElems = s.openElems := by
+    rw [q34.openElems, hdo3]; show s2.openElems = _; exact q02.openElems
+  have hel_nO : el ∉ s4.openElems := by
+    rw [hst4]
+    intro hm
+    exact Nat.lt_irrefl _ (Nat.lt_of_lt_of_le (lt_of_isElement (hc.late.st.oe el hm)) hsz)
+  have hch4 : ∀ x, s4.dom.childrenOf x = s.dom.childrenOf x := fun x => by
+    rw [childrenOf_of_nodes q34.nodes, hch3, childrenOf_of_nodes q02.nodes]
+  have hcand : ∀ p, (InsertionPoint.lastChild t).nodes.1 = p ∨ (InsertionPoint.lastChild t).nodes.2 = some p → p ≠ el := by
+    intro p hp
+    simp only [InsertionPoint.nodes] at hp
+    rcases hp with rfl | hp
+    · exact hte
+    · cases hp
+  obtain ⟨hadj5, hadj5p⟩ := insertAt_new_adj (el := el) hc4.late hipok4 hc4.adj hel_nO
+    (by rw [parentOf_of_nodes q34.nodes]; exact hpar3)
+    (by rw [isText_of_data (d := s3.dom) (by unfold Dom.dataOf; rw [q34.nodes])]; exact htxt3)
+    (by rw [childrenOf_of_nodes q34.nodes]; exact hkids3)
+    (fun tc htc => by
+      rw [tc_of_nodes q34.nodes] at htc
+      obtain ⟨h1, h2⟩ := htc3 tc htc
+      refine ⟨by rw [childrenOf_of_nodes q34.nodes]; exact h1, fun p hp => ?_⟩
+      simp only [InsertionPoint.nodes] at hp
+      rcases hp with rfl | hp
+      · exact Nat.ne_of_lt (Nat.lt_of_lt_of_le htlt h2)
+      · cases hp)
+    hcand
+    (fun P a b x hP hpos hxa hxO hxx => by
+      refine hc.no_open_before_plain ht P a b x (by rw [← hch4]; exact hP) ?_ hxa (by rw [← hst4]; exact hxO) ?_
+      · refine hpos.congr (fun y => (hch4 y).symm) (fun p hp => ?_)
+        simp only [InsertionPoint.nodes] at hp
+        rcases hp with rfl | hp
+        · rw [parentOf_of_nodes q34.nodes, hpo3 _ htlt, parentOf_of_nodes q02.nodes]
+        · cases hp
+      · have hxO' : x ∈ s.openElems := by rw [← hst4]; exact hxO
+        have hlt : x < s2.dom.size := by rw [hsz2]; exact lt_of_isElement (hc.late.st.oe x hxO')
+        have : nm s4.dom x = nm s.dom x := by
+          rw [nm_of_nodes q34.nodes, nm_of_data (hda3 x hlt), nm_of_nodes q02.nodes]
+        rw [← this]; exact hxx)
+    e5
+  have hoe54 : s5.openElems = s4.openElems := by rw [hdo5]
+  refine ⟨s5, hs', hl5, hdo, hchg05, hk0, hsz, ?_, hext5.chg.isElement hel4, by rw [hk05]; exact hnol4 0, ?_, ?_,
+    by rw [hoe54]; exact hadj5, by rw [hoe54]; exact hadj5p⟩
   · rw [nm_chg hext5.chg hel4, nm_of_nodes q34.nodes]; exact hnm3
   · intro htr
     have hrs23 : RS r s2.dom s3.dom := by
@@ -150,9 +212,9 @@ theorem Core.insInner {s s5 : State} {r t el : Id} {ns name : Str} {up : List Id
     Core s5 r up ph ∧ SameNames s.dom s5.dom up ∧
       (PushOk s ⟨ns, name⟩ → Core { s5 with openElems := s5.openElems ++ [el] } r (up ++ [el]) ph) := by
   obtain ⟨f1, f2, f3, f4, f5, f6, f7⟩ := h.fields
-  have hc5 : Core s5 r up ph := hc.transfer h.late h.chg (h.inner htr) (by rw [h.k0]; exact hc.rdoc) f1 f5 f7 f6 f2
+  have hc5 : Core s5 r up ph := hc.transfer h.late h.chg (h.inner htr) (by rw [h.k0]; exact hc.rdoc) f1 f5 f7 f6 f2 h.adj
   refine ⟨hc5, hc.sameNames h.chg, fun hpk => ?_⟩
-  refine hc5.pushG ⟨h.elel, h.loose⟩ (by rw [f1]; exact h.notOpen hc) ?_
+  refine hc5.pushG ⟨h.elel, h.loose⟩ (by rw [f1]; exact h.notOpen hc) ?_ h.adjp
   rw [h.nmel]
   refine ⟨fun x hx => ?_, hpk.2.1, fun hn => ?_⟩
   · rw [f1] at hx
@@ -191,7 +253,7 @@ theorem Core.insRoot {s s5 : State} {r el : Id} {ns name : Str} {ph : Phase}
     ⟨hlp.base, hlp.pat, ⟨hlp.st.doc, hlp.st.ctx, hlp.st.oe, hlp.st.tail, hhd, hlp.st.ptt⟩,
       ⟨hlp.ml.mode, hlp.ml.orig, hlp.ml.tm⟩⟩
   refine ⟨hl', by show s5.openElems ++ [el] = _; rw [f1, hst]; rfl, by rw [h.k0]; exact hc.rdoc,
-    ?_, ?_, ?_, ?_, by rw [f7]; exact hc.tmm, ?_, hrtu hc.rtu, ?_, ?_, he, (by intro y hy; cases hy), hafx⟩
+    ?_, ?_, ?_, ?_, by rw [f7]; exact hc.tmm, ?_, hrtu hc.rtu, ?_, ?_, he, (by intro y hy; cases hy), hafx, h.adjp⟩
   · show (s5.openElems ++ [el]).Nodup
     rw [f1, List.nodup_append]
     exact ⟨hc.nodup, by simp, by intro a ha b hb; simp at hb; subst hb; rintro rfl; exact hnotopen ha⟩
@@ -265,7 +327,7 @@ theorem ElemsOk.of_rootElems {d d' : Dom} {head : Option Id} {r : Id} {ph : Phas
 theorem Core.transferRoot {s s' : State} {r : Id} {up : List Id} {ph : Phase} (h : Core s r up ph)
     (hl : Late s') (hdo : DomOnly s s') (hc : Chg s.dom s'.dom) (hk0 : r ∈ s'.dom.childrenOf 0)
     (hrtu : RTU r s'.dom) (hrnd : (s'.dom.childrenOf r).Nodup) (hkids : ∀ c ∈ s'.dom.childrenOf r, KidOkR s'.dom c)
-    (hre : rootElems s'.dom r = rootElems s.dom r) : Core s' r up ph := by
+    (hre : rootElems s'.dom r = rootElems s.dom r) (hadj : AdjD s'.dom s'.openElems) : Core s' r up ph := by
   have hr := hdo
   have hoe : s'.openElems = s.openElems := by rw [hr]
   have haf : s'.activeFormatting = s.activeFormatting := by rw [hr]
@@ -275,7 +337,7 @@ theorem Core.transferRoot {s s' : State} {r : Id} {up : List Id} {ph : Phase} (h
   have hel : ∀ x ∈ s.openElems, s.dom.isElement x = true := h.late.st.oe
   have hsn : SameNames s.dom s'.dom s.openElems := SameNames.of_chg hc hel
   refine ⟨hl, by rw [hoe]; exact h.stack, hk0, by rw [hoe]; exact h.nodup, ?_, ?_, ?_, by rw [htm]; exact h.tmm, ?_,
-    hrtu, hrnd, hkids, ?_, ?_, ?_⟩
+    hrtu, hrnd, hkids, ?_, ?_, ?_, hadj⟩
   · rw [hoe]; exact h.tg.congr hsn
   · intro x t hx
     rw [haf] at hx
@@ -316,6 +378,12 @@ theorem appendText_core {s s' : State} {r : Id} {up : List Id} {ph : Phase} {tex
     show s2 = { s with dom := s2.dom, traceRev := s2.traceRev }
     have := q1.rest
     rw [hdo2, this]
+  have hadj2 : AdjD s2.dom s2.openElems := by
+    have : s2.openElems = s1.openElems := by rw [hdo2]
+    rw [this]
+    refine insertAt_text_adj hc1.late hipok1 hc1.adj hc1.late.st.oe (fun x hpx hxO hxx => ?_) e4
+    obtain ⟨P, a, b, hP, hpos, hxa⟩ := hpx.pos
+    exact hc1.no_open_before_plain (by rw [q1.openElems]; exact ht) P a b x hP hpos hxa hxO hxx
   refine ⟨?_, rfl, hdo, hsn⟩
   unfold H5V.Model.HtmlTB.insertAt at e4
   obtain ⟨out, hd, _⟩ := sinkUnit_dom e4
@@ -327,7 +395,7 @@ theorem appendText_core {s s' : State} {r : Id} {up : List Id} {ph : Phase} {tex
     have hklt : ∀ c ∈ s1.dom.childrenOf t, c < s1.dom.size := fun c hcm => hc1.late.base.kidsValid t c hcm
     have hwt := hws rfl
     have hcore2 : Core s2 t up ph := by
-      refine hc1.transferRoot hl2 hdo2 hext2.chg (by rw [hk02]; exact hc1.rdoc) (hrtu hc1.rtu) ?_ ?_ ?_
+      refine hc1.transferRoot hl2 hdo2 hext2.chg (by rw [hk02]; exact hc1.rdoc) (hrtu hc1.rtu) ?_ ?_ ?_ hadj2
       · rcases hcase with ⟨hl', old, hk, _⟩ | ⟨hk, _, _⟩
         · rw [hk]; exact hc1.rnd
         · rw [hk, List.nodup_append]
@@ -377,7 +445,7 @@ theorem appendText_core {s s' : State} {r : Id} {up : List Id} {ph : Phase} {tex
   · -- below another element
     have hrs : RS r s1.dom s2.dom := rs_append_text hc1.late.base hc1.rtu htr happ
     exact hc1.transfer hl2 hext2.chg hrs (by rw [hk02]; exact hc1.rdoc) (by rw [hdo2]) (by rw [hdo2]) (by rw [hdo2])
-      (by rw [hdo2]) (by rw [hdo2])
+      (by rw [hdo2]) (by rw [hdo2]) hadj2
 
 theorem appendText_shape {s s' : State} {r : Id} {up : List Id} {ph : Phase} {text : Str} {res : ProcessResult}
     {t : Id} (h : ShapeAt s r up ph) (ht : s.openElems.getLast? = some t)
@@ -404,8 +472,9 @@ theorem appendComment_core {s s' : State} {r : Id} {up : List Id} {ph : Phase} {
   obtain ⟨_, _, hk1, hid, hs1, _⟩ := createComment_spec hc.late.base text
   rw [← hdom1] at hk1 hs1
   have hrs1 : RS r s.dom s1.dom := by rw [hdom1]; exact rs_alloc r hc.late.base _
+  obtain ⟨hadj1, hpar1, htx1, hcO1⟩ := createComment_adj hc.late hc.adj e1
   have hcore1 : Core s1 r up ph := hc.transfer hl1 hext1.chg hrs1 (by rw [hk1]; exact hc.rdoc)
-    (by rw [hdo1]) (by rw [hdo1]) (by rw [hdo1]) (by rw [hdo1]) (by rw [hdo1])
+    (by rw [hdo1]) (by rw [hdo1]) (by rw [hdo1]) (by rw [hdo1]) (by rw [hdo1]) hadj1
   have hnol : ∀ q, c ∉ s1.dom.childrenOf q := fun q hq => by
     rw [hk1] at hq
     exact Nat.lt_irrefl _ (Nat.lt_of_lt_of_le (hc.late.base.kidsValid q _ hq) hfresh1)
@@ -438,14 +507,24 @@ theorem appendComment_core {s s' : State} {r : Id} {up : List Id} {ph : Phase} {
     have hip : IpOk s2.dom (.lastChild t) := ⟨ne_zero_of_isElement hcore2.late.base hrel, isContainer_of_isElement hrel⟩
     have hch : ChildOk s2.dom (.node c) := ⟨hnol2 0, by rw [hcd2]; simp⟩
     obtain ⟨hl3, hext3, hk03, hdo3⟩ := insertAt_spec (child := .node c) hcore2.late hip hch e6
-    unfold H5V.Model.HtmlTB.insertAt at e6
-    obtain ⟨out, hd6, _⟩ := sinkUnit_dom e6
     have hrc : t ≠ c := by
       rintro rfl
       unfold Dom.isElement at hrel; rw [hcd2] at hrel; cases hrel
+    have hadj3 : AdjD s3.dom s3.openElems := by
+      have : s3.openElems = s2.openElems := by rw [hdo3]
+      rw [this]
+      refine (insertAt_node_adj hcore2.late hip hcore2.adj (by rw [q2.openElems]; exact hcO1)
+        (by rw [parentOf_of_nodes q2.nodes]; exact hpar1)
+        (by unfold Dom.isText; rw [hcd2]) (fun p hp => ?_) e6).1
+      simp only [InsertionPoint.nodes] at hp
+      rcases hp with rfl | hp
+      · exact hrc
+      · cases hp
+    unfold H5V.Model.HtmlTB.insertAt at e6
+    obtain ⟨out, hd6, _⟩ := sinkUnit_dom e6
     obtain ⟨hkr, hdata, _, _, hrtu⟩ := root_append_node hrc hnol2 (apply_append hd6)
     have hcn : s2.dom.isElement c = false := by unfold Dom.isElement; rw [hcd2]
-    refine ⟨hcore2.sameData hl3 hdo3 hdata (by rw [hk03]; exact hcore2.rdoc) (hrtu hcore2.rtu) ?_ ?_ ?_,
+    refine ⟨hcore2.sameData hl3 hdo3 hdata (by rw [hk03]; exact hcore2.rdoc) (hrtu hcore2.rtu) ?_ ?_ ?_ hadj3,
       fun y _ => by unfold nm; rw [hdata]⟩
     · rw [hkr, List.nodup_append]
       exact ⟨hcore2.rnd, by simp, by intro a ha b hb; simp at hb; subst hb; rintro rfl; exact hnol2 t ha⟩
@@ -478,8 +557,18 @@ theorem appendComment_core {s s' : State} {r : Id} {up : List Id} {ph : Phase} {
         rcases hp with rfl | hp
         · exact htc
         · cases hp⟩ e6
+    have hadj3 : AdjD s3.dom s3.openElems := by
+      have : s3.openElems = s2.openElems := by rw [hdo3]
+      rw [this]
+      refine (insertAt_node_adj hcore2.late hip hcore2.adj (by rw [q2.openElems]; exact hcO1)
+        (by rw [parentOf_of_nodes q2.nodes]; exact hpar1)
+        (by unfold Dom.isText; rw [hcd2]) (fun p hp => ?_) e6).1
+      simp only [InsertionPoint.nodes] at hp
+      rcases hp with rfl | hp
+      · exact htc
+      · cases hp
     exact ⟨hcore2.transfer hl3 hext3.chg hrs (by rw [hk03]; exact hcore2.rdoc) (by rw [hdo3]) (by rw [hdo3])
-      (by rw [hdo3]) (by rw [hdo3]) (by rw [hdo3]), hcore2.sameNames hext3.chg⟩
+      (by rw [hdo3]) (by rw [hdo3]) (by rw [hdo3]) hadj3, hcore2.sameNames hext3.chg⟩
 
 theorem appendComment_shape {s s' : State} {r : Id} {up : List Id} {ph : Phase} {text : Str} {res : ProcessResult}
     {t : Id} (h : ShapeAt s r up ph) (ht : s.openElems.getLast? = some t)
